@@ -27,6 +27,7 @@ package cfgbackend
 import (
 	"errors"
 	"fmt"
+	"math"
 	"strconv"
 	"strings"
 
@@ -70,6 +71,11 @@ func (cc *ConsulSource) GetNextUInt32(key string) (value uint32, err error) {
 		return
 	}
 	value = uint32(value64)
+	if value == math.MaxUint32 {
+		// incrementing would wrap around to 0 and hand out numbers that were already used
+		err = errors.New("cannot increment CAS key: uint32 counter exhausted")
+		return
+	}
 	value++
 	kvp.Value = []byte(strconv.FormatUint(uint64(value), 10))
 	var ok bool
